@@ -2,7 +2,7 @@
 from fractions import Fraction
 
 from .. import common, patterning
-from ..objects import warmup
+from ..objects import warmup, make_object
 
 TOL = Fraction(1, 10**9)
 
@@ -76,8 +76,8 @@ def run(ctx):
     seqs = common.random_sequences(ctx.rng, nseq, maxn, 1) + patterning.special_sequences(ctx.rng, ctx.pick(200, 400))
     trs = []
     for i, s in enumerate(seqs):
-        o = lc.SP(s)
-        hist = warmup(o, ctx.rng) if i % 2 else []
+        o, s, how = make_object(lc, s, ctx.rng)
+        hist = ([{"made": how}] if how != "direct" else []) + (warmup(o, ctx.rng) if i % 2 else [])
         outs = [common.call(o.get_kappa), common.call(o.get_delta), common.call(o.get_deltaMax)]
         ctx.evaluations += 1
         if any(v[0] != "ok" or not common.is_number(v[1]) for v in outs):
